@@ -35,10 +35,13 @@ def _hll_args(tier, seed, k, profile):
     return ["--seed", seed, "--segments", 6, "--events", 2500 + 500 * (k % 5), "--minlgk", 4,
             "--maxlgk", 14 if k % 6 == 0 else 12, "--serde", serde, "--hilo", 17, "--hihi", 21]
 
-_HLL = dict(harness="hll_rec", inc=["common", "hll"], spec="TraceHll", files={Q: 8, T: 40}, args=_hll_args,
-            nontrivial=hll_nontrivial, heap="4g")
-HLL_JOB = job("hll", owners=["C03"], serde=False, cfg="TraceHll.cfg", **_HLL)
-HLL_SERDE_JOB = job("hll_serde", owners=["C03"], serde=True, cfg="TraceHll_serde.cfg", **_HLL)
+_HLL = dict(harness="hll_rec", inc=["common", "hll"], spec="TraceHll", args=_hll_args, nontrivial=hll_nontrivial, heap="4g")
+HLL_JOB = job("hll", owners=["C03"], serde=False, cfg="TraceHll.cfg", files={Q: 5, T: 28}, **_HLL)
+HLL_SERDE_JOB = job("hll_serde", owners=["C03"], serde=True, cfg="TraceHll_serde.cfg", files={Q: 8, T: 40}, **_HLL)
+# tier B (MODEL-DRIFT): further files (other seeds) validated against the contract and then again with the design-level
+# shadow state (spec/HllMech.tla with the code's thresholds) compared with the physical state of every sketch's own image
+HLL_B_JOB = job("hll_b", owners=["C03"], serde=False, cfg="TraceHll.cfg", drift_cfg="TraceHllB.cfg", files={Q: 3, T: 12},
+                **dict(_HLL, args=lambda tier, seed, k, profile: _hll_args(tier, seed + 500, k + 5, profile)))
 
 HLL_MC = [
     dict(module="MC_HllDesign", cfg="MC_HllDesign.cfg", workers=1),
@@ -64,6 +67,7 @@ HLL_MC = [
 def run_c03(oc, repo, seed, tier):
     mc_all(oc, HLL_MC, tier)
     core.trace_job(oc, HLL_JOB, repo, seed, tier)
+    core.trace_job(oc, HLL_B_JOB, repo, seed, tier)
 
 
 # ---------------------------------------------------------------------------------------------------------------------
@@ -103,10 +107,13 @@ def _hu_args(tier, seed, k, profile):
     return ["--seed", seed, "--segments", 30, "--minlgk", 4, "--maxlgk", 14 if k % 5 == 0 else 12,
             "--cap", 20000 if k % 5 == 0 else 8000, "--serde", serde, "--hilo", 17, "--hihi", 20]
 
-_HU = dict(harness="hllunion_rec", inc=["common", "hll"], spec="TraceHllUnion", files={Q: 8, T: 40}, args=_hu_args,
-           nontrivial=hllunion_nontrivial, heap="4g")
-HU_JOB = job("hllunion", owners=["C04"], serde=False, cfg="TraceHllUnion.cfg", **_HU)
-HU_SERDE_JOB = job("hllunion_serde", owners=["C04"], serde=True, cfg="TraceHllUnion_serde.cfg", **_HU)
+_HU = dict(harness="hllunion_rec", inc=["common", "hll"], spec="TraceHllUnion", args=_hu_args, nontrivial=hllunion_nontrivial, heap="4g")
+HU_JOB = job("hllunion", owners=["C04"], serde=False, cfg="TraceHllUnion.cfg", files={Q: 5, T: 28}, **_HU)
+HU_SERDE_JOB = job("hllunion_serde", owners=["C04"], serde=True, cfg="TraceHllUnion_serde.cfg", files={Q: 8, T: 40}, **_HU)
+# tier B (MODEL-DRIFT): shadow gadget per union (spec/HllUnionMech.tla: the union_impl case analysis with stored counters and
+# rebuild flag) and shadow design state per input sketch, compared with what the images of inputs and results expose
+HU_B_JOB = job("hllunion_b", owners=["C04"], serde=False, cfg="TraceHllUnion.cfg", drift_cfg="TraceHllUnionB.cfg", files={Q: 3, T: 12},
+               **dict(_HU, args=lambda tier, seed, k, profile: _hu_args(tier, seed + 500, k + 5, profile)))
 
 HU_MC = [
     dict(module="MC_HllUnionDesign", cfg="MC_HllUnionDesign.cfg"),
@@ -148,3 +155,4 @@ def run_c04(oc, repo, seed, tier):
     _clean_ttrace()
     oc.extra["negative_model_runs"] = neg
     core.trace_job(oc, HU_JOB, repo, seed, tier)
+    core.trace_job(oc, HU_B_JOB, repo, seed, tier)
